@@ -15,8 +15,8 @@ SPEC = {
                   "the in-order subsequence of the changes on its interface that intersect its mask, minus those that arrived "
                   "while its buffer held 8 (C19_iff); nothing is lost when the buffer never fills (C19_exact_when_drained); "
                   "the buffer never exceeds 8 (C19_bounded); notify is a total function that never fails on API-valid "
-                  "histories (C19_never_blocks); end of watch closes every earlier subscription exactly once, later ones "
-                  "never, and no send follows a close (C19_close); Watch twice panics; the 127x7x2 single-event table by "
+                  "histories (C19_never_blocks); end of watch -- the watch function returning nil or an error -- closes every earlier subscription "
+                  "exactly once, later ones never, Watch returns what the watch function returned, and no send follows a close (C19_close); Watch twice panics; the 127x7x2 single-event table by "
                   "computation; bit assignments, channel capacity and the operstate table are tied to the extracted source facts. "
                   "The model is tied to the real netstate.Watcher by differential runs through the injected watch hook.",
     "level_note": "Trusted: Coq kernel + vm_compute; goextract; the Go driver. Partial: 'subscribing concurrently with notification "
@@ -29,7 +29,9 @@ SPEC = {
     "rule": "each case is a script run on a fresh real Watcher with the watch hook injected: (1) every one of the 127 masks x 7 "
             "single changes x interface match/mismatch on its own watcher, and all masks at once per change; (2) slow subscribers: "
             "0..30 matching changes never received before the final receive bursts (one notify call / one call per change / watch "
-            "ended first); (3) corner scripts (Watch twice, Watch after end, subscribe after end, zero mask, zero / multi-bit / "
+            "ended first / watch function failed first); the injected watch function returns nil or an error (alternating over table (1), "
+            "40% of the ended random histories, failing at once or after events in the corner scripts): Watch must return that error and "
+            "every earlier channel must be closed all the same; (3) corner scripts (Watch twice, Watch after end, subscribe after end, zero mask, zero / multi-bit / "
             "out-of-range change values, two channels under one mask); (4) random histories (1-3 interfaces, up to 7 subscribers "
             "subscribing before / during / after the watch, bursts of 0-6 changes per interface, receive bursts of 0-10, 35% with "
             "nobody receiving before the end, 30% never ended); (5) operStateChange on all 256 operstate values and process() on "
